@@ -318,6 +318,7 @@ impl Check for C05 {
         let (mut env, sc) = gen_env(&mut e, &cfg);
         let mut t1 = gen_ty(&mut e, &sc, 3, &cfg);
         let primed = !env.defs.is_empty() && e.ratio(1, 3);
+        let mut split: Option<(Env, Env, Ty)> = None;
         let (t2, rel) = if primed {
             // old/new interface pair: every definition gets a primed copy, one of
             // them edited at a random position; the query relates a type over the
@@ -336,6 +337,13 @@ impl Check for C05 {
             if e.bool() && names.len() >= 2 {
                 let a = Ty::Var(names[e.below(names.len())].clone());
                 let b = Ty::Var(names[e.below(names.len())].clone());
+                // the optional member is sometimes an inline structural type around the name
+                let a = match e.below(5) {
+                    0 => Ty::Record(vec![(Lab::Named("a".into()), a)]),
+                    1 => Ty::vec(a),
+                    2 => Ty::Variant(vec![(Lab::Named("c".into()), a), (Lab::Named("d".into()), Ty::Prim(Prim::Null))]),
+                    _ => a,
+                };
                 t1 = match e.below(3) {
                     0 => Ty::Record(vec![(Lab::Named("p".into()), Ty::opt(a)), (Lab::Named("q".into()), Ty::vec(b))]),
                     1 => Ty::Record(vec![(Lab::Named("p".into()), Ty::opt(a)), (Lab::Named("q".into()), b)]),
@@ -345,6 +353,19 @@ impl Check for C05 {
                     ]),
                 };
             }
+            // for the text entry points: the old program holds the old definitions only, the
+            // new program the new ones only, some of them under their old names again (so the
+            // two programs define the same name differently, next to names only one of them has)
+            let keep: Vec<String> = names.iter().filter(|_| e.bool()).cloned().collect();
+            let unprime = |t: &Ty| -> Ty { rename_vars(t, &|n: &str| match n.strip_suffix("_new") { Some(b) if keep.iter().any(|k| k == b) => b.to_string(), _ => n.to_string() }) };
+            let old_env = Env { defs: env.defs[..names.len()].to_vec() };
+            let new_env = Env {
+                defs: env.defs[names.len()..]
+                    .iter()
+                    .map(|(n, t)| (match n.strip_suffix("_new") { Some(b) if keep.iter().any(|k| k == b) => b.to_string(), _ => n.clone() }, unprime(t)))
+                    .collect(),
+            };
+            split = Some((old_env, new_env, unprime(&prime(&t1, &names))));
             (prime(&t1, &names), "primed-copy")
         } else {
             match e.below(6) {
@@ -483,7 +504,14 @@ impl Check for C05 {
         // text entry points with definitions reordered/renamed and fields permuted
         if e.ratio(1, 3) {
             let (v1, v2) = (e.u8() & 7, e.u8() & 7);
-            let (p1, p2) = (prog_text(&env, &t1, v1), prog_text(&env, &t2, v2));
+            let (p1, p2) = match &split {
+                Some((old_env, new_env, t2u)) if e.ratio(2, 3) => {
+                    ctx.class("text-entry-points-separate-programs-sharing-names");
+                    // renaming (bit 2) would undo the name sharing
+                    (prog_text(old_env, &t1, v1 & 5), prog_text(new_env, t2u, v2 & 5))
+                }
+                _ => (prog_text(&env, &t1, v1), prog_text(&env, &t2, v2)),
+            };
             ctx.class("text-entry-points");
             let r = guard(|| service_compatible(CandidSource::Text(&p1), CandidSource::Text(&p2)).map_err(|e| e.to_string()));
             match r {
@@ -524,7 +552,55 @@ impl Check for C05 {
     }
 }
 
-fn prime(t: &Ty, names: &[String]) -> Ty {
+/// Old/new interface pair over `env` (extended in place with an edited `_new` copy
+/// of every definition): returns (type over the old names, the same type over the
+/// new names). Used by C04 as a source of pairs for which the checker has to probe
+/// below `opt` and back out.
+pub(crate) fn primed_pair(e: &mut Ent, env: &mut Env, sc: &Scope, cfg: &TypeCfg) -> (Ty, Ty) {
+    let names: Vec<String> = env.defs.iter().map(|d| d.0.clone()).collect();
+    let mut copies: Vec<(String, Ty)> = env.defs.iter().map(|(n, t)| (format!("{n}_new"), prime(t, &names))).collect();
+    let k = e.below(copies.len());
+    let d = *e.pick(&[Dir::Unrelated, Dir::Unrelated, Dir::Super, Dir::Sub]);
+    let edited = step(e, env, sc, &copies[k].1, d, cfg, 0);
+    if std::mem::discriminant(&edited) == std::mem::discriminant(&copies[k].1) && !matches!(edited, Ty::Var(_)) {
+        copies[k].1 = edited;
+    }
+    env.defs.extend(copies);
+    let a = Ty::Var(names[e.below(names.len())].clone());
+    let b = Ty::Var(names[e.below(names.len())].clone());
+    let a = match e.below(5) {
+        0 => Ty::Record(vec![(Lab::Named("a".into()), a)]),
+        1 => Ty::vec(a),
+        2 => Ty::Variant(vec![(Lab::Named("c".into()), a), (Lab::Named("d".into()), Ty::Prim(Prim::Null))]),
+        _ => a,
+    };
+    let t1 = match e.below(3) {
+        0 => Ty::Record(vec![(Lab::Named("p".into()), Ty::opt(a)), (Lab::Named("q".into()), Ty::vec(b))]),
+        1 => Ty::Record(vec![(Lab::Named("p".into()), Ty::opt(a)), (Lab::Named("q".into()), b)]),
+        _ => Ty::Record(vec![(Lab::Named("p".into()), Ty::opt(a)), (Lab::Named("q".into()), Ty::opt(Ty::vec(b.clone()))), (Lab::Named("r".into()), b)]),
+    };
+    let t2 = prime(&t1, &names);
+    (t1, t2)
+}
+
+fn rename_vars(t: &Ty, f: &dyn Fn(&str) -> String) -> Ty {
+    match t {
+        Ty::Var(n) => Ty::Var(f(n)),
+        Ty::Opt(x) => Ty::opt(rename_vars(x, f)),
+        Ty::Vec(x) => Ty::vec(rename_vars(x, f)),
+        Ty::Record(fs) => Ty::Record(fs.iter().map(|(l, x)| (l.clone(), rename_vars(x, f))).collect()),
+        Ty::Variant(fs) => Ty::Variant(fs.iter().map(|(l, x)| (l.clone(), rename_vars(x, f))).collect()),
+        Ty::Func { args, rets, modes } => Ty::Func {
+            args: args.iter().map(|x| rename_vars(x, f)).collect(),
+            rets: rets.iter().map(|x| rename_vars(x, f)).collect(),
+            modes: modes.clone(),
+        },
+        Ty::Service(ms) => Ty::Service(ms.iter().map(|(n, x)| (n.clone(), rename_vars(x, f))).collect()),
+        other => other.clone(),
+    }
+}
+
+pub(crate) fn prime(t: &Ty, names: &[String]) -> Ty {
     match t {
         Ty::Var(n) if names.contains(n) => Ty::Var(format!("{n}_new")),
         Ty::Opt(x) => Ty::opt(prime(x, names)),
